@@ -503,7 +503,7 @@ class C03Check:
     mine = ("C03:",)
     rule = ("each run = one generated test contract: optional setUp() writing state, check_g(uint256 x1-3[, bytes]) = a chain of 1-4 "
             "guards over the parameters / setUp state (==, <, >, signed <, +c, &mask, ^c, *c, /c, %c, x*y, x/y, x<y, keccak(x)==h, "
-            "sload==x, length of bytes, first word of bytes) ending in a FAIL leaf (Panic with a configured code, vm.assertTrue(false), "
+            "sload==x, TIMESTAMP/NUMBER == the value this test set with vm.warp / vm.roll or the default, length of bytes, first word of bytes), optionally behind a no-op diamond, ending in a FAIL leaf (Panic with a configured code, vm.assertTrue(false), "
             "vm.assertEq(a,a+1), nested call whose Panic is bubbled up); other paths end in success / revert / INVALID / Panic with "
             "an unlisted code. Reachable cases are built around a planted witness that the reference EVM confirms; unreachable cases "
             "add a contradiction. run_contract runs under the simulator (real yices or z3 binary for truthful replies; swarm: solver, "
@@ -513,7 +513,7 @@ class C03Check:
             "query was answered and the witness classification was confirmed on the reference EVM")
     assumptions = [
         "ground truth by construction + confirmation of the planted witness on the independent reference EVM",
-        "unreachable cases rely on elementary contradictions (x==c and x==c+1, parity, empty range, 2x==odd, length outside the configured candidates)",
+        "unreachable cases rely on elementary contradictions (x==c and x==c+1, parity, empty range, 2x==odd, keccak(x)==keccak(x+1), x op 0 forms, length outside the configured candidates)",
         "bytes parameters use the candidate lengths 0/32/65 passed as --default-bytes-lengths; inputs outside the printed bounds are not claimed",
         "truthful solver replies come from the real yices-smt2 / z3 binaries; a lying solver is not in the fault model",
     ]
